@@ -279,6 +279,7 @@ func (r *Report) writeEvidence(counts map[string]int, discharged, nviol, nknown 
 	if c != nil {
 		cov["packages_loaded"] = len(c.Pkgs)
 		cov["functions_in_program"] = c.NumFuncs
+		cov["constructs_normalised_at_load"] = c.Canon // comparisons reoriented, update statements and if-else forms rewritten (canon.go)
 	}
 	for k, v := range r.extra {
 		cov[k] = v
